@@ -3,7 +3,7 @@
 
 *)
 From Coq Require Import ZArith NArith List Bool Arith.
-From NSG Require Import Base.Prelude Model.Defender Model.Coord Proofs.CoordBase Proofs.CoordInv Proofs.CoordInvConn Proofs.CoordInvDispatch Proofs.CoordInvHandler Proofs.CoordProps Proofs.CoordDirect.
+From NSG Require Import Base.Prelude Model.Defender Model.Coord Proofs.CoordBase Proofs.CoordInv Proofs.CoordInvConn Proofs.CoordInvDispatch Proofs.CoordInvHandler Proofs.CoordProps Proofs.CoordDirect Proofs.CoordInv2 Proofs.CoordAgentStep.
 Import ListNotations.
 
 (* the reason: goal reached => Success; else detected => Fail; else step limit reached => TimeoutReached; else unchanged *)
@@ -101,6 +101,34 @@ Theorem C04_defender_reason :
        (@a_role V G a = RDefender -> @a_status V G a' = SSuccess <-> successful = false).
 Proof. exact (@reward_agent_bonus). Qed.
 
+(* ACROSS LABELS: from any reachable state in which an agent's episode has ended, along every continuation without a run of the reset task (any interleaving, other agents acting, joining, leaving), the agent - while it is in the game - stays ended and its step counter and view do not move *)
+Theorem C04_stays_ended :
+  forall (V W G : Type) (wstep : W -> V -> G -> W * V) (wreset : W -> W) (winit : W -> role -> W * V)
+         (goal : role -> V -> bool) (detect : list G -> G -> bool) (cfg : config) 
+         (w : W) (ls0 ls : list (@label G)) (s s' : @state V W G) (c : addr) (a : @agent V G),
+       @execs V W G wstep wreset winit goal detect cfg (@init_state V W G w) ls0 = @Some (@state V W G) s ->
+       @execs V W G wstep wreset winit goal detect cfg s ls = @Some (@state V W G) s' ->
+       @no_reset G ls ->
+       @alookup (@agent V G) c (@agents V W G s) = @Some (@agent V G) a ->
+       @a_ended V G a = true ->
+       (exists a' : @agent V G,
+          @alookup (@agent V G) c (@agents V W G s') = @Some (@agent V G) a' /\
+          @a_ended V G a' = true /\ @a_steps V G a' = @a_steps V G a /\ @a_view V G a' = @a_view V G a) \/
+       @gone_along V W G wstep wreset winit goal detect cfg s ls c.
+Proof. exact (@ended_stays_reachable). Qed.
+
+(* what one label can do to one agent's record, from every reachable state: the complete case list `achange` (Proofs/CoordAgentStep.v): nothing; request flag set; own action (only when not ended); answer recorded; trajectory restarted; reward task; reset task (only when it had asked) *)
+Theorem C04_one_label :
+  forall (V W G : Type) (wstep : W -> V -> G -> W * V) (wreset : W -> W) (winit : W -> role -> W * V)
+         (goal : role -> V -> bool) (detect : list G -> G -> bool) (cfg : config) 
+         (w : W) (ls0 : list (@label G)) (s s' : @state V W G) (l : @label G) (c : addr) 
+         (a : @agent V G),
+       @execs V W G wstep wreset winit goal detect cfg (@init_state V W G w) ls0 = @Some (@state V W G) s ->
+       @exec V W G wstep wreset winit goal detect cfg s l = @Some (@state V W G) s' ->
+       @alookup (@agent V G) c (@agents V W G s) = @Some (@agent V G) a ->
+       @stepped V G cfg (@agents V W G s') c a l.
+Proof. exact (@agent_step_reachable). Qed.
+
 
 (* non-vacuity: a concrete run of the executable instance reaches a state in which a request is
    held back at a barrier (two required players, one has joined) and the model is quiescent *)
@@ -117,9 +145,39 @@ Example C04_nonvacuous :
   end.
 Proof. vm_compute. repeat split; reflexivity. Qed.
 
+(* non-vacuity of the cross-label theorems: a concrete run of the executable instance (one attacker, step limit 1)
+   reaches a state in which the agent has been rewarded (step reward -1 plus fail bonus -10); continuing the run
+   (the released handler answers, the agent is refused a further action, the reward task is not enabled again)
+   the record is exactly the same *)
+Example C04_episode_nonvacuous :
+  let cfg := {| required := 1; max_steps := fun _ => Some 1; r_step := (-1)%Z; r_succ := 100%Z; r_fail := (-10)%Z;
+                allowed := fun _ => true; save_traj := false |} in
+  let ex := execs x_wstep x_wreset x_winit (x_goal []) (x_detect None (0%Z, 1%positive)) cfg in
+  let g := MGame (ScanNetwork, 3%N) true in
+  let ls0 := [LConnect 1%N; LArrive 1%N (CMsg (MJoin (Some (7%N, Some RAttacker)))); LRun (TConn 1%N); LRun TDispatch; LRun (THandler 0);
+              LRun (TConn 1%N); LArrive 1%N (CMsg g); LRun (TConn 1%N); LRun TDispatch; LRun (THandler 1); LRun TRewards] in
+  let ls := [LRun (THandler 1); LRun (TConn 1%N); LArrive 1%N (CMsg g); LRun (TConn 1%N); LRun TDispatch; LRun (THandler 2); LRun (TConn 1%N)] in
+  match ex (init_state [5%N; 6%N; 8%N]) ls0 with
+  | Some s =>
+      match alookup 1%N (agents s), ex s ls with
+      | Some a, Some s' =>
+          a_rewarded a = true /\ a_ended a = true /\ a_reward a = (-11)%Z /\ a_status a = STimeout /\
+          (exists h, In h (handlers s) /\ h_pc h = PRewards true (ScanNetwork, 3%N) 6%N) /\
+          match alookup 1%N (agents s') with
+          | Some a' => a_reward a' = (-11)%Z /\ a_steps a' = 1 /\ length (t_actions (a_traj a')) = 1
+          | None => False
+          end
+      | _, _ => False
+      end
+  | None => False
+  end.
+Proof. vm_compute. repeat split; try reflexivity. eexists. split; [left; reflexivity | reflexivity]. Qed.
+
 Print Assumptions C04_status.
 Print Assumptions C04_step.
 Print Assumptions C04_reply.
 Print Assumptions C04_absorbing.
 Print Assumptions C04_absorbing_frame.
 Print Assumptions C04_defender_reason.
+Print Assumptions C04_stays_ended.
+Print Assumptions C04_one_label.
